@@ -35,11 +35,11 @@ def gen(tier, rng, shard, nshards):
         if rng.random() < 0.55:
             yield {"mode": "svd", "m": m, "n": n, "dt": dt, "k": k, "kmode": kmode, "seed": S.seed(rng),
                    "alg": S.pick(rng, [OMIT, "Auto", "DenseSVD", "Lanczos", "Lanczos"]),
-                   "kind": S.pick(rng, ["Dense", "Dense", "Generic", "Identity", "Diagonal", "Product"])}
+                   "kind": S.pick(rng, ["Dense", "Dense", "Generic", "Identity", "Diagonal", "Product", "SelfAdjoint", "SelfAdjoint", "PSD"])}
         else:
             yield {"mode": "pinv", "m": m, "n": n, "dt": dt, "seed": S.seed(rng), "alg": S.pick(rng, [OMIT, "Auto", "LSTSQ", "CG", "CG"]),
                    "wide_rhs": bool(rng.random() < 0.25),
-                   "kind": S.pick(rng, ["Dense", "Dense", "Generic", "Identity", "Diagonal", "ScalarMul", "Permutation", "Product", "ProductRect", "ProductRect"]),
+                   "kind": S.pick(rng, ["Dense", "Dense", "Generic", "Identity", "Diagonal", "ScalarMul", "Permutation", "Product", "ProductRect", "ProductRect", "SelfAdjoint", "PSD"]),
                    "cols": int(S.pick(rng, [0, 1, 3])), "consistent": bool(rng.random() < 0.5)}
 
 
@@ -61,6 +61,19 @@ def operator(case, rng):
         else:
             node = {"k": "Permutation", "perm": [int(i) for i in rng.permutation(n)], "dt": dt}
         return node
+    if kind in ("SelfAdjoint", "PSD"):
+        # declared Hermitian operators: indefinite (or negative definite) for SelfAdjoint -- the singular values are the
+        # *magnitudes* of the eigenvalues -- and positive definite for PSD
+        n = m
+        mags = lin(1.0, 4.0, n)
+        if kind == "PSD":
+            signs = np.ones(n)
+        else:
+            signs = rng.choice([-1.0, 1.0], size=n) if rng.random() < 0.7 else -np.ones(n)
+            signs[int(rng.integers(0, n))] = -1.0
+        leaf = {"k": S.pick(rng, ["Dense", "Dense", "Generic"]), "shape": [n, n], "dt": dt, "seed": S.seed(rng), "gen": "herm",
+                "eigs": [float(a * b) for a, b in zip(mags, signs)]}
+        return {"k": "Annot", "name": kind, "arg": leaf}
     sv = lin(1.0, 4.0, r)  # well separated, cond 4, full rank
     leaf = {"k": "Dense" if kind != "Generic" else "Generic", "shape": [m, n], "dt": dt, "seed": S.seed(rng), "gen": "svals", "svals": sv}
     if kind == "ProductRect":
